@@ -76,7 +76,7 @@ class C03(runner.Prop):
                 'kind': st.just('reduce'),
                 't': gen.tree_descs(ml, leaf=ints.map(lambda n: ['i', n]),
                                     kinds=('tuple', 'list', 'dict', 'od', 'dd', 'deque', 'nt', 'cg', 'cn', 'cs', 'ci', 'dc')),
-                'cfg': gen.configs(predicates=['none', 'never', 'tuple2', 'is_cg']),
+                'cfg': gen.configs(predicates=['none', 'never', 'tuple2', 'is_cg', 'is_list']),
                 'initial': st.integers(-3, 3), 'use_initial': st.booleans()})
         # all / any only tell leaf sets apart when the other leaves are all truthy / all falsy: biased strata
         numeric = st.one_of(numeric_of(st.integers(-5, 9)), numeric_of(st.integers(-5, 9)),
@@ -95,7 +95,14 @@ class C03(runner.Prop):
                 lambda t: ['wrap', ','.join(t[0]), t[1], t[2]]),
             'cfg': gen.configs(predicates=['none', 'never', 'leaf_even'])})
         # explicit weights (one_of neither keeps repetitions as weights nor nested alternatives as one)
-        table = [general] * 9 + [numeric_of(st.integers(-5, 9))] * 2 + [numeric_of(st.sampled_from([0, 0, 0, 0, 0, 0, 0, 3])),
+        # leaves that are lists (one-element lists kept whole by the predicate): sums with a list start value
+        list_leaves = st.fixed_dictionaries({
+            'kind': st.just('reduce'),
+            't': gen.tree_descs(ml, leaf=st.integers(-5, 9).map(lambda n: ['list', [['i', n]]]),
+                                kinds=('tuple', 'dict', 'od', 'dd', 'deque', 'nt', 'cg')),
+            'cfg': gen.configs(predicates=['is_list']).map(lambda c: dict(c, pred='is_list')),
+            'initial': st.integers(-3, 3), 'use_initial': st.booleans()})
+        table = [general] * 9 + [list_leaves] + [numeric_of(st.integers(-5, 9))] * 2 + [numeric_of(st.sampled_from([0, 0, 0, 0, 0, 0, 0, 3])),
                                                                          numeric_of(st.integers(1, 9))] + [bad] * 3 + [deep] * 3
 
         @st.composite
@@ -262,6 +269,13 @@ class C03(runner.Prop):
         same('tree_min_key', lambda: optree.tree_min(tree, key=tkey, **kw), lambda: min(leaves, key=tkey))
         same('tree_max_key2', lambda: optree.tree_max(tree, key=tkey, **kw), lambda: max(leaves, key=tkey))
         same('tree_min_default_key2', lambda: optree.tree_min(tree, default=init, key=tkey, **kw), lambda: min(leaves, default=init, key=tkey))
+        # a container as start value: the result is the Python fold's, and the caller's start object is left alone
+        for start_of in (lambda: [init], lambda: (init,)):       # (str / bytes starts are joined by design, unlike sum())
+            s0 = start_of()
+            keep = start_of()
+            same('tree_sum_container_start', lambda: optree.tree_sum(tree, s0, **kw), lambda: sum(leaves, start_of()))
+            if s0 != keep:
+                ctx.fail('reduce/tree_sum_start_mutated', f'start {keep!r} became {s0!r}; leaves={leaves!r}')
         same('tree_all', lambda: optree.tree_all(tree, **kw), lambda: all(leaves))
         same('tree_any', lambda: optree.tree_any(tree, **kw), lambda: any(leaves))
         if not leaves:
